@@ -5,14 +5,15 @@ From Ygot Require Import Tree.Tree Scalar.Dec.
 
 (* mirrors harness/ydrive/tree.go:sortKey *)
 Definition scalar_sortkey (v : scalar) : str :=
+  (* a kind tag first, so that values of different kinds (union keys) never tie *)
   match v with
-  | VInt _ z => dec_of_Z z
-  | VStr s => s
-  | VBool b => if b then [116;114;117;101] else [102;97;108;115;101]
-  | VDec bits => dec_of_N bits
-  | VBin bs => bs
-  | VEmpty => []
-  | VEnum _ n => dec_of_Z n
+  | VInt _ z => 105 :: dec_of_Z z
+  | VStr s => 115 :: s
+  | VBool b => 98 :: (if b then [116;114;117;101] else [102;97;108;115;101])
+  | VDec bits => 100 :: dec_of_N bits
+  | VBin bs => 120 :: bs
+  | VEmpty => [110]
+  | VEnum ty n => 101 :: ty ++ 58 :: dec_of_Z n
   end.
 
 Fixpoint keys_cmp (a b : list scalar) : comparison :=
